@@ -73,7 +73,8 @@ FloorDiv(n, d) == n \div d      \* n >= 0
 (***************************************************************************)
 Init0 == [clock |-> 0, bal |-> [x \in Syms |-> C.init[x]], hold |-> D0, bor |-> D0,
           orders |-> <<>>, loans |-> <<>>, last |-> [p \in PairIdx |-> 0],
-          openIdx |-> <<>>, reidx |-> 0, events |-> <<>>]
+          openIdx |-> <<>>, reidx |-> 0, events |-> <<>>,
+          cond |-> C.cond]          \* MarginLoans._conditions: the lending conditions in force (set_conditions changes them)
 
 IsOpen(o) == o.state = "open"
 OpenOrderIdx(s) == {i \in 1..Len(s.orders) : IsOpen(s.orders[i])}
@@ -81,7 +82,10 @@ OpenLoanIdx(s)  == {j \in 1..Len(s.loans) : s.loans[j].open}
 Avail(s, x) == s.bal[x] - s.hold[x]
 
 (* ---------------------------- lending ---------------------------------- *)
-Cond(x) == C.cond[x]
+\* The conditions in force are part of the state (MarginLoans.set_conditions may change them at any time): the margin
+\* requirement is always taken from the conditions in force, the interest terms of a loan are those in force when it
+\* was granted (MarginLoan keeps its conditions).
+SetCond(s, x, which) == [s EXCEPT !.cond[x] = IF which = "alt" THEN C.condAlt[x] ELSE C.cond[x]]
 Q  == C.quoteSym
 SMax == LET S == {C.scale[x] : x \in Syms} IN CHOOSE m \in S : \A k \in S : k <= m
 PairOf(b, q) == {p \in PairIdx : BaseOf(p) = b /\ QuoteOf(p) = q}
@@ -109,34 +113,37 @@ ValQ(s, x, v) == IF v = 0 THEN 0
 \* outstanding interest of loan l at time t, in units of its interest symbol (MarginLoan.calculate_interest,
 \* then ValueMap.truncate): max(principal * pct/100 * elapsed/period [converted], min) truncated
 InterestOf(s, l, t) ==
-  LET c   == Cond(l.sym)
+  LET c   == l.c
       el  == t - l.at
       n   == l.amount * c.pctN * el
       d   == c.pctD * c.period
+      \* ValueMap.truncate: down to the precision configured for the interest SYMBOL, which may be coarser than the
+      \* precision of the pairs it trades in (C.istep units per step; set_pair_info overrides the pair's precision)
+      Tr(v) == (v \div C.istep[c.isym]) * C.istep[c.isym]
   IN IF c.isym = l.sym
-     THEN Max2(n \div d, c.minInt)
+     THEN Tr(Max2(n \div d, c.minInt))
      ELSE \* converted to the interest symbol (only the normalising symbol is supported as a foreign interest symbol)
           LET p == PriceIn(s, l.sym) IN
-          Max2((n * p) \div (d * C.scale[l.sym] * C.pm), c.minInt)
+          Tr(Max2((n * p) \div (d * C.scale[l.sym] * C.pm), c.minInt))
 \* (a foreign interest symbol is only supported for symbols priced through a direct pair)
-InterestConvertible(s, l) == Cond(l.sym).isym = l.sym \/ (Cond(l.sym).isym = Q /\ DirectPriced(s, l.sym))
+InterestConvertible(s, l) == l.c.isym = l.sym \/ (l.c.isym = Q /\ DirectPriced(s, l.sym))
 
 \* CheckMarginLevel on candidate maps (nb, nbor).  Result: "ok" | "nebal" | "noprice" | "zero"
 MarginCheck(s, nb, nbor) ==
   LET borrowedSyms == {x \in Syms : nbor[x] # 0}
       open == OpenLoanIdx(s)
-      intSyms == {Cond(s.loans[j].sym).isym : j \in {k \in open : InterestOf(s, s.loans[k], s.clock) > 0}}
+      intSyms == {s.loans[j].c.isym : j \in {k \in open : InterestOf(s, s.loans[k], s.clock) > 0}}
   IN IF \E x \in borrowedSyms : ~HasPrice(s, x) THEN "noprice"
      ELSE LET RECURSIVE SumUsed(_)
               SumUsed(S) == IF S = {} THEN 0 ELSE LET x == CHOOSE x \in S : TRUE IN
-                               ValQ(s, x, nbor[x]) * Cond(x).reqN + SumUsed(S \ {x})
+                               ValQ(s, x, nbor[x]) * s.cond[x].reqN + SumUsed(S \ {x})
               used == SumUsed(borrowedSyms)           \* over VDen * C.reqD
           IN IF used = 0 THEN "ok"
-             ELSE IF \E j \in open : InterestOf(s, s.loans[j], s.clock) > 0 /\ ~HasPrice(s, Cond(s.loans[j].sym).isym)
+             ELSE IF \E j \in open : InterestOf(s, s.loans[j], s.clock) > 0 /\ ~HasPrice(s, s.loans[j].c.isym)
                   THEN "noprice"
              ELSE LET RECURSIVE SumInt(_)
                       SumInt(S) == IF S = {} THEN 0 ELSE LET j == CHOOSE j \in S : TRUE IN
-                                      ValQ(s, Cond(s.loans[j].sym).isym, InterestOf(s, s.loans[j], s.clock)) + SumInt(S \ {j})
+                                      ValQ(s, s.loans[j].c.isym, InterestOf(s, s.loans[j], s.clock)) + SumInt(S \ {j})
                       interest == SumInt(open)        \* over VDen
                       posSyms == {x \in Syms : nb[x] - nbor[x] > 0}
                   IN IF \E x \in posSyms : ~HasPrice(s, x) THEN "noprice"
@@ -166,7 +173,7 @@ CreateLoanI(s, sym, amount) ==
   IF amount <= 0 THEN [ok |-> FALSE, err |-> "error", s |-> s]
   ELSE IF s.clock = 0 THEN [ok |-> FALSE, err |-> "error", s |-> s]          \* dispatcher.now() not available
   ELSE IF C.lendMode = "none" THEN [ok |-> FALSE, err |-> "error", s |-> s]  \* NoLoans
-  ELSE IF ~Cond(sym).has THEN [ok |-> FALSE, err |-> "error", s |-> s]
+  ELSE IF ~s.cond[sym].has THEN [ok |-> FALSE, err |-> "error", s |-> s]
   ELSE LET pre == MarginCheck(s, Plus(s.bal, Only(sym, amount)), Plus(s.bor, Only(sym, amount)))   \* _check_equity_left
            u   == Update(s, Only(sym, amount), D0, Only(sym, amount)) IN
        IF pre = "noprice" THEN [ok |-> FALSE, err |-> "noprice", s |-> s]
@@ -174,7 +181,7 @@ CreateLoanI(s, sym, amount) ==
        ELSE IF ~u.ok THEN u
        ELSE [ok |-> TRUE, err |-> "",
              s |-> [u.s EXCEPT !.loans = Append(@, [sym |-> sym, amount |-> amount, at |-> s.clock, open |-> TRUE,
-                                                    paid |-> D0, cause |-> "none"])]]
+                                                    paid |-> D0, cause |-> "none", c |-> s.cond[sym]])]]
 
 \* LoanManager.cancel_loan (rollback of an auto-borrow)
 \* the loan is closed first so that its own (minimum) interest no longer counts in the margin level of the state the
@@ -192,11 +199,11 @@ RepayLoanI(s, j, cause) ==
   ELSE LET l == s.loans[j] IN
        IF ~InterestConvertible(s, l) THEN [ok |-> FALSE, err |-> "noprice", s |-> s]
        ELSE LET i  == InterestOf(s, l, s.clock)
-                db == Plus(Only(l.sym, -l.amount), Only(Cond(l.sym).isym, -i))
+                db == Plus(Only(l.sym, -l.amount), Only(l.c.isym, -i))
                 u  == Update(s, db, D0, Only(l.sym, -l.amount)) IN
             IF ~u.ok THEN u
             ELSE [u EXCEPT !.s = [u.s EXCEPT !.loans[j].open = FALSE, !.loans[j].cause = cause,
-                                             !.loans[j].paid = Only(Cond(l.sym).isym, i)]]
+                                             !.loans[j].paid = Only(l.c.isym, i)]]
 
 (* ------------------------------ fees ------------------------------------ *)
 \* total fee due (quote units, rounded up) for a cumulative traded quote amount tq
@@ -459,10 +466,10 @@ Inv_C09_TotalFee(s) ==
 \* (a borrowed symbol that cannot be valued at all does not meet any requirement: the request must fail)
 MarginRequirementMet(s) ==
   LET bs == {x \in Syms : s.bor[x] > 0} IN
-  /\ \A x \in {y \in bs : Cond(y).reqN > 0} : HasPrice(s, x)
+  /\ \A x \in {y \in bs : s.cond[y].reqN > 0} : HasPrice(s, x)
   /\ (\A x \in bs \cup {y \in Syms : s.bal[y] - s.bor[y] > 0} : HasPrice(s, x)) =>
      LET RECURSIVE SU(_)
-         SU(S) == IF S = {} THEN 0 ELSE LET x == CHOOSE x \in S : TRUE IN ValQ(s, x, s.bor[x]) * Cond(x).reqN + SU(S \ {x})
+         SU(S) == IF S = {} THEN 0 ELSE LET x == CHOOSE x \in S : TRUE IN ValQ(s, x, s.bor[x]) * s.cond[x].reqN + SU(S \ {x})
          RECURSIVE SE(_)
          SE(S) == IF S = {} THEN 0 ELSE LET x == CHOOSE x \in S : TRUE IN ValQ(s, x, s.bal[x] - s.bor[x]) + SE(S \ {x})
      IN SE({y \in Syms : s.bal[y] - s.bor[y] > 0}) * C.reqD >= SU(bs)
@@ -474,5 +481,5 @@ Inv_C11_LoanShape(s) ==
      /\ (~l.open => l.cause \in {"repay", "autorepay", "rollback"})
      /\ \A x \in Syms : l.paid[x] >= 0
      /\ (l.cause = "rollback" => l.paid = D0)
-     /\ (l.cause \in {"repay", "autorepay"} => l.paid[Cond(l.sym).isym] >= Cond(l.sym).minInt)
+     /\ (l.cause \in {"repay", "autorepay"} => l.paid[l.c.isym] >= l.c.minInt)
 ================================================================================
